@@ -2273,9 +2273,9 @@ func driveC14(c *h.Ctx) error {
 	}
 	var sb strings.Builder
 	sb.WriteString(c14Header)
-	bdefs, bexpr := h.Chunk("brows", "tables * Z * Z * (Z * Z) * Z * reg_input * bytes * res reg_req", r.build, 300)
-	adefs, aexpr := h.Chunk("arows", "tables * get_resp * list (acc * res value)", r.acc, 300)
-	wdefs, wexpr := h.Chunk("wrows", "object * res object", r.wire, 300)
+	bdefs, bexpr := h.Chunk("brows", "tables * Z * Z * (Z * Z) * Z * reg_input * bytes * res reg_req", r.build, 50)
+	adefs, aexpr := h.Chunk("arows", "tables * get_resp * list (acc * res value)", r.acc, 50)
+	wdefs, wexpr := h.Chunk("wrows", "object * res object", r.wire, 100)
 	sdefs, sexpr := h.Chunk("srows", "Z * slot * option (list slot)", r.slot, 300)
 	for _, d := range p.defs {
 		sb.WriteString(d)
